@@ -57,6 +57,32 @@ func VerifC20SlotsOrdered() {
 	sym.Reached("end")
 }
 
+// A stale second Release — after the latches have been handed to somebody
+// else — is harmless too: it must not free the new holder's latches.
+func VerifC20StaleRelease() {
+	m := NewManager(1 << sym.Int("stripes_log2", 0, 1))
+	k1 := c20Keys("a", 2)
+	k2 := c20Keys("b", 2)
+	g1 := m.Acquire(k1)
+	g1.Release()
+	g2 := m.Acquire(k2) // the next request
+	g1.Release()        // the first request releases again
+	// every stripe of the second request is still locked
+	for _, k := range k2 {
+		if len(k) == 0 {
+			continue
+		}
+		idx := int(c20Hash(k) % uint64(len(m.stripes)))
+		free := m.stripes[idx].TryLock()
+		sym.Assert(!free, "stale-release-does-not-free-the-next-holder")
+		if free {
+			m.stripes[idx].Unlock()
+		}
+	}
+	g2.Release()
+	sym.Reached("end")
+}
+
 // Concurrent requests: overlapping key sets never hold their latches at the
 // same time; no interleaving deadlocks; double release is harmless.
 func VerifC20MutualExclusion() {
